@@ -45,10 +45,15 @@ func smallCap(r *mc.Run) {
 	// free client / receive-time choices (+1s, -1s, +1ns), everything else within 2 deviations
 	r.Explore(mc.Config{Name: "cap3/free", Bound: mc.Pick(r, 2, 3), Prune: true},
 		tsskit.Program(tsskit.Params{Clients: cl, Steps: mc.Pick(r, 6, 8), FreeClientRx: true, RxKinds: 3, Prune: true}, nil))
+	// the same from stores in which client A's eight-slot record has already wrapped
+	for _, pre := range []int{8, 9, 11} {
+		r.Explore(mc.Config{Name: fmt.Sprintf("cap3/prefill%d", pre), Bound: mc.Pick(r, 3, 4)},
+			tsskit.Program(tsskit.Params{Clients: cl[:3], Steps: mc.Pick(r, 5, 7), Prefill: pre}, nil))
+	}
 	// full alphabet, deviation bounded, from a store already holding cap clients
 	r.Explore(mc.Config{Name: "cap3/dev", Bound: mc.Pick(r, 4, 5)},
 		tsskit.Program(tsskit.Params{Clients: cl, Steps: mc.Pick(r, 7, 9)}, nil))
-	r.Extra["rule"] = "cap-3 store, five client identities: all histories of 6 (8) steps with free client and receive-time order choices and <=2 (3) other deviations, canonical-state pruned; plus the C06 alphabet within 4 (5) deviations; every transition judged by the eviction rule and the structural invariants"
+	r.Extra["rule"] = "cap-3 store, five client identities: all histories of 6 (8) steps with free client and receive-time order choices and <=2 (3) other deviations, canonical-state pruned; the C06 alphabet within 4 (5) deviations, also from stores where one client's eight-slot record has wrapped (8, 9, 11 prior exchanges); every transition judged by the eviction rule and the structural invariants"
 }
 
 // realCap: the shipped constant. Fill the store with 2^20 clients in three
